@@ -31,6 +31,9 @@ func init() {
 		}, &slip.CLPkg)
 }
 
+// GoTo is returned by the go function.
+type GoTo = slip.GoTo
+
 // Go represents the go function.
 type Go struct {
 	slip.Function
